@@ -59,7 +59,10 @@ class VFSZip(VFS_Real):
             with shelve.open(cache_fspath, "n") as db:
                 for (key, value) in self.dircache.items():
                     db[key] = value
-        except OSError:
+        except Exception:
+            # The cache is only an optimisation.  Besides OSError, the dbm
+            # backends raise all sorts of things (dbm.error, SyntaxError from
+            # dbm.dumb...) when another worker is rebuilding the same cache.
             return False
         else:
             return True
